@@ -17,6 +17,10 @@ use crate::{
     varint::{VARINT_MAX, VarInt},
 };
 
+/// The largest number of not yet received sequence numbers a NEW_CONNECTION_ID frame may skip
+/// (or the active_connection_id_limit, whichever is larger).
+const MAX_SEQUENCE_GAP: u64 = 1 << 12;
+
 /// RemoteCids is used to manage the connection IDs issued by the peer,
 /// and to send [`RetireConnectionIdFrame`] to the peer.
 // TODO: support 0RTT?
@@ -118,6 +122,20 @@ where
         // Discard the frame if the sequence number is less than the current offset.
         if seq < self.cid_deque.offset() {
             return Ok(None);
+        }
+
+        // The table holds one cell per sequence number up to `seq`, and every number below
+        // `retire_prior_to` is answered with a RETIRE_CONNECTION_ID frame: bound both before
+        // anything is inserted.  A peer that issues sequence numbers one by one (RFC 9000 §5.1.1)
+        // can only get this far ahead with that many NEW_CONNECTION_ID frames still in flight.
+        let skipped = seq.saturating_sub(self.cid_deque.largest());
+        if skipped > MAX_SEQUENCE_GAP.max(self.active_cid_limit) {
+            return Err(QuicError::new(
+                ErrorKind::ConnectionIdLimit,
+                frame.frame_type().into(),
+                format!("sequence number {seq} skips {skipped} connection ids never received"),
+            )
+            .into());
         }
 
         let id = *frame.connection_id();
